@@ -387,4 +387,3 @@ func valueKey(v ssa.Value) string {
 	}
 	return ""
 }
-
